@@ -23,6 +23,9 @@ pub struct Case {
     pub j6: f64,
     /// axial tools / frames and arbitrary bases
     pub layers: Vec<Layer>,
+    /// optional joint limits: J1..J5 whole circle, J6 the window centre +- half width (centre within +-2.5 rad)
+    #[serde(default)]
+    pub j6_window: Option<(LimitSpec, f64, f64)>,
 }
 
 impl Property for C06 {
@@ -32,7 +35,7 @@ impl Property for C06 {
     }
     fn rule(&self) -> String {
         "robots dof 5 and 6 (sane + negative families) x poses (stack forward of a joint vector; raw SE(3); singular classes) x j6 / previous (finite, |j6|<=10) x entry points (all four on dof-5 robots, the two 5-DOF ones on dof-6 robots) \
-         x {bare, axial Tool/Frame, arbitrary Base, combinations up to depth 2}. Non-trivial: at least one answer returned. Distinct = distinct serialized cases."
+         x {bare, axial Tool/Frame, arbitrary Base, combinations up to depth 2} x {no limits, limits with J1..J5 whole-circle and an off-centre J6 window (then previous may be the CONSTRAINT_CENTERED marker, whose J6 element is 0.0)}. Non-trivial: at least one answer returned. Distinct = distinct serialized cases."
             .into()
     }
     fn assumptions(&self) -> Vec<String> {
@@ -60,8 +63,16 @@ impl Property for C06 {
             0u8..4,
             prop_oneof![1 => Just(0.0), 4 => -10.0..10.0f64],
             prop_oneof![3 => Just(vec![]), 4 => prop::collection::vec(axial_layer(1.0), 1..3)],
+            prop_oneof![3 => Just(None), 1 => (limits_wide(), -2.5..2.5f64, 0.3..2.5f64).prop_map(Some)],
         )
-            .prop_map(|(robot, pose, prev, entry, j6, layers)| Case { robot, pose, prev, entry, j6, layers })
+            .prop_map(|(robot, pose, prev, entry, j6, layers, j6_window)| {
+                // with limits, mostly ask for a J6 inside the window (otherwise nothing is returned and nothing can be compared)
+                let j6 = match &j6_window {
+                    Some((_, c6, w)) if (j6 * 7.0).fract().abs() < 0.8 => c6 + w * (j6 / 10.0),
+                    _ => j6,
+                };
+                Case { robot, pose, prev, entry, j6, layers, j6_window }
+            })
             .boxed()
     }
     fn check(&self, c: &Case, ctx: &mut Ctx) -> Res {
@@ -73,7 +84,16 @@ impl Property for C06 {
         let what = ENTRY_NAMES[entry as usize];
         ctx.class(&format!("dof{}:{}", r.dof, what));
         ctx.class(&format!("stack:{}", stack_name(&c.layers)));
-        let kin = build_stack(Arc::new(opw(r)), &c.layers);
+        let kin = match &c.j6_window {
+            Some((l, c6, w)) => {
+                let (mut from, mut to) = (l.from, l.to);
+                from[5] = c6 - w;
+                to[5] = c6 + w;
+                ctx.class("limits: J6 window");
+                build_stack(Arc::new(opw_c(r, rs_opw_kinematics::constraints::Constraints::new(from, to, l.weight))), &c.layers)
+            }
+            None => build_stack(Arc::new(opw(r)), &c.layers),
+        };
         // requested TCP pose: stack forward of the source joints, or the raw pose
         let src = c.pose.source_joints(r);
         let tcp = match src {
@@ -119,7 +139,15 @@ impl Property for C06 {
         if !well_scaled && src.is_some() {
             ctx.exclude("completeness not asserted for robots whose arm links are below 1e-3 of the overall size");
         }
-        if let (Some(j), true) = (src, well_scaled) {
+        // with limits the answers outside them are withheld (C08): completeness is asserted when the caller's J6 is inside its window
+        let j6_admitted = match &c.j6_window {
+            Some((_, c6, w)) => circ_dist(want_j6, *c6) <= w - 1e-9,
+            None => true,
+        };
+        if !j6_admitted && src.is_some() {
+            ctx.exclude("the caller's J6 is outside the J6 limits: nothing need be returned");
+        }
+        if let (Some(j), true) = (src, well_scaled && j6_admitted) {
             match margins_ok(r, &j) {
                 Ok(()) => {
                     let found = sols.iter().any(|s| (0..5).all(|t| circ_dist(s[t], j[t]) <= 1e-6));
